@@ -16,7 +16,7 @@ for pid in ids:
         "evidence_file": "/verif/evidence/%s.json" % pid,
         "replay_cmd_template": "./check %s --replay {path}" % pid,
         "engine": "symgo",
-        "level_claimed": {"category": "model_checking", "text": c["text"], "design_ref": c.get("design_ref", "DESIGN.md §5 " + pid)},
+        "level_claimed": {"category": c.get("category", "model_checking"), "text": c["text"], "design_ref": c.get("design_ref", "DESIGN.md §5 " + pid)},
         "level_note": c["note"],
         "technique": c.get("technique", "bounded symbolic execution of the real Go SSA (own engine) decided by SMT (z3 5.1 / z3 4.8 / cvc5), counterexamples replayed natively"),
     })
